@@ -426,6 +426,24 @@ def refused_worker(part, _):
                     part.fail("refused:aftermath", "L=%d, kinds=%s: after make_invariants refused a %s, the retry with a proper copy of the same numbers (or the next valid call) "
                               "differs from the answer given before the refusal (max dev %.3g)" % (L, kinds, bname, float(np.abs(after2 - w2).max()) if after2.shape == w2.shape else np.inf), case)
                 part.outcome(("refused", bname, kinds))
+        # pairwise: kinds="N" (no compiled kernel involved) TOGETHER WITH each of those array forms - whatever is accepted is answered with
+        # the per-degree norms of the numbers it holds, one per degree
+        for bname, b in bad.items():
+            if bname in ("too short", "2-D", "list"):
+                continue
+            part.ev()
+            part.tr()
+            try:
+                gotN = np.asarray(make_invariants(L, b, kinds="N"), dtype=float)
+            except Exception:
+                part.outcome(("N-form-refused", bname))
+                continue
+            bb = np.asarray(b).astype(np.complex128)
+            wantN = np.array([np.sqrt(np.sum(np.abs(bb[l * l:(l + 1) ** 2]) ** 2)) for l in range(L + 1)])
+            if gotN.shape != wantN.shape or not (np.abs(gotN - wantN).max() <= 1e-6 * wantN.max()):
+                part.fail("N-form:%s" % bname, "make_invariants(kinds='N') of a %s (L=%d) returns %d values%s, expected the %d per-degree norms"
+                          % (bname, L, gotN.size, "" if gotN.shape != wantN.shape else " (max dev %.3g)" % float(np.abs(gotN - wantN).max()), L + 1), {"kind": "refused"})
+            part.outcome(("N-form", bname))
     part.nstates(3)
 
 
